@@ -343,8 +343,8 @@ func (w *worker) eval(a *refsmb.Assign, r *explore.Run, ax *andx.AndX) {
 // staleCounts: a count field that the caller left stale (0, or one more than the buffer holds) next to a
 // non-empty buffer. Whether Marshal derives the count from the buffer or trusts the caller is the library's
 // choice - but the bytes it emits must be the encoding of ONE definite set of field values, namely the ones
-// the structure holds when Marshal returns: a count that Marshal corrects in the structure but emits stale
-// (or the reverse) is an encoding of no value at all. The byte order of the emitted count is judged by the
+// the structure holds when Marshal returns - or the true count, emitted without touching the caller's
+// structure: a count that Marshal corrects in the structure but emits stale is an encoding of no value at all. The byte order of the emitted count is judged by the
 // layout/byteorder obligations, not here.
 func (w *worker) staleCounts() {
 	cmd := w.cmd
@@ -398,9 +398,10 @@ func (w *worker) staleCounts() {
 			after := fv.Uint()
 			label := fmt.Sprintf("%s; then %s set to %d (the buffer it counts holds %d)", a.Label(), f.Name, stale, consistent)
 			w.c.Case([]byte(cmd.Name), []byte(label))
-			w.check(w.key(f.Name+"/emitted-count-is-the-value-the-structure-holds-after-Marshal"), leV == after || beV == after, func() string {
-				return fmt.Sprintf("%s{%s}.Marshal() emits %x in the slot of %s (bytes [%d,%d) of the %s) while the structure holds %s=%d when Marshal returns: the message encodes neither the caller's value nor the corrected one consistently; library bytes %s",
-					cmd.Name, label, libb, f.Name, slot.Off, slot.Off+slot.Len, map[bool]string{true: "data block", false: "parameter words"}[slot.Sec == refsmb.SecData], f.Name, after, vf.HexS(b))
+			// also fine: the true count emitted without touching the caller's structure
+			w.check(w.key(f.Name+"/emitted-count-is-the-value-the-structure-holds-after-Marshal"), leV == after || beV == after || leV == consistent || beV == consistent, func() string {
+				return fmt.Sprintf("%s{%s}.Marshal() emits %x in the slot of %s (bytes [%d,%d) of the %s) while the structure holds %s=%d when Marshal returns and the buffer holds %d: the message carries neither the value of the structure nor the true count; library bytes %s",
+					cmd.Name, label, libb, f.Name, slot.Off, slot.Off+slot.Len, map[bool]string{true: "data block", false: "parameter words"}[slot.Sec == refsmb.SecData], f.Name, after, consistent, vf.HexS(b))
 			})
 		}
 	}
